@@ -297,16 +297,19 @@ def meet(A, B):
     return I(lo, hi) if lo <= hi else A
 
 def rounded(R):
-    """enclosure of fl(r), r in R (rounding is monotone and keeps the sign)"""
-    W = R + rnd(R)
-    lo, hi = W.lo, W.hi
+    """enclosure of fl(r), r in R: round-to-nearest is monotone, so fl(r) lies between the roundings of the endpoints"""
+    import numpy as np
+    with np.errstate(over='ignore'):
+        lo, hi = float(np.float32(R.lo)), float(np.float32(R.hi))
     # r is a sum/product/quotient of binary32 numbers: if non-zero, |r| > 1e-100; enclosure noise below that is not a sign change
     if R.lo >= -1e-300: lo = max(lo, 0.0)
     if R.hi <= 1e-300: hi = min(hi, 0.0)
     return I(lo, hi)
 
-def errprop(e, env, H: Helpers):
-    """env: atom id -> I (exact inputs).  returns (V, E, R): ideal value, error computed-ideal, computed value"""
+def errprop(e, env, H: Helpers, lemmas=None, total=False):
+    """env: atom id -> I (exact inputs).  returns (V, E, R): ideal value, error computed-ideal, computed value.
+    lemmas: optional function node -> interval known to contain BOTH the computed and the ideal value of that node
+    (a fact proved elsewhere, e.g. x - fl((x+y)/2) >= 0 for y <= x)"""
     cache = {}
     def cond(c):
         """(decision on ideal values, decision on computed values); None = undecided"""
@@ -360,10 +363,14 @@ def errprop(e, env, H: Helpers):
             r = fin(V, E + rnd(D), D)
         elif op == 'fdiv':
             (Va, Ea, Ra), (Vb, Eb, Rb) = rec(n.args[0]), rec(n.args[1])
-            V = Va / Vb
-            E = (Ea - V * Eb) / Rb
-            D = rounded(Ra / Rb)
-            r = fin(V, E + rnd(D), D)
+            if total and ((Vb.lo <= 0 <= Vb.hi) or (Rb.lo <= 0 <= Rb.hi)):
+                TOPI = I(-INF, INF)
+                r = (TOPI, TOPI, TOPI)          # range mode: an unbounded quotient instead of giving up (E is useless then)
+            else:
+                V = Va / Vb
+                E = (Ea - V * Eb) / Rb
+                D = rounded(Ra / Rb)
+                r = fin(V, E + rnd(D), D)
         elif op == 'fneg':
             Va, Ea, Ra = rec(n.args[0]); r = (-Va, -Ea, -Ra)
         elif op == 'cast' and X.is_float(n.ty) and X.is_float(n.args[0].ty):
@@ -380,13 +387,18 @@ def errprop(e, env, H: Helpers):
                     parts = []
                     for envp, br in ((ref[0], n.args[1]), (ref[1], n.args[2])):
                         if envp is not None:
-                            parts.append(errprop(br, envp, H))
+                            parts.append(errprop(br, envp, H, lemmas, total))
                     V, E, R = parts[0]
                     for (v2, e2, r2) in parts[1:]:
                         V, E, R = V.hull(v2), E.hull(e2), R.hull(r2)
                     r = (V, E, R)
                 else:
                     (Va, Ea, Ra), (Vb, Eb, Rb) = rec(n.args[1]), rec(n.args[2])
+                    # a branch that returns the very value the condition tests is bounded by the test:
+                    # select(x > k, A, x) yields x only when x <= k  (computed values; likewise for the ideal ones)
+                    ca, cb = _clip_by_cond(n.args[0], n.args[1], True), _clip_by_cond(n.args[0], n.args[2], False)
+                    if ca is not None: Ra = meet(Ra, ca); Va = meet(Va, ca)
+                    if cb is not None: Rb = meet(Rb, cb); Vb = meet(Vb, cb)
                     V = Va.hull(Vb); E = Ea.hull(Eb); R = Ra.hull(Rb)
                     if cr is True: R = Ra
                     if cr is False: R = Rb
@@ -450,9 +462,32 @@ def errprop(e, env, H: Helpers):
             else: raise Unsupported(f"error propagation through {name}")
         else:
             raise Unsupported(f"error propagation through {op}")
+        if lemmas is not None:
+            Lm = lemmas(n)
+            if Lm is not None:
+                r = (meet(r[0], Lm), r[1], meet(r[2], Lm))
         cache[n.id] = r
         return r
     return rec(e)
+
+def _clip_by_cond(c, branch, taken):
+    """interval that `branch` is confined to when it is the tested operand of the comparison c against a constant"""
+    if c.op not in ('lt', 'le', 'gt', 'ge'):
+        return None
+    a, b = c.args
+    op = c.op
+    if a.is_const and not b.is_const:
+        a, b = b, a
+        op = {'lt': 'gt', 'le': 'ge', 'gt': 'lt', 'ge': 'le'}[op]
+    if not b.is_const or a is not branch:
+        return None
+    k = float(b.val)
+    if not taken:
+        op = {'lt': 'ge', 'le': 'gt', 'gt': 'le', 'ge': 'lt'}[op]
+    if X.is_float(branch.ty) and branch.ty[1] == 32 and op in ('lt', 'gt'):
+        import numpy as np                     # strict comparison of binary32 values: the neighbouring float is the bound
+        k = float(np.nextafter(np.float32(k), np.float32(-np.inf if op == 'lt' else np.inf)))
+    return I(-INF, k) if op in ('lt', 'le') else I(k, INF)
 
 def _refine(c, env):
     """(env for the then-branch, env for the else-branch) when c compares an input atom (possibly under
